@@ -44,6 +44,7 @@ func runC02(p *Program, r *Report) {
 	c05msglock(p, r, "C02.msglock")
 	c02flush(p, r, "C02.flush")
 	cFramePayload(p, r, "C02.payload")
+	cCloseFrameSites(p, r, "C02.close.sites")
 }
 
 var bytesLenRe = regexp.MustCompile(`^\(len\(call:CloseError\.bytes@[^ ]*\) > (\d+)\)$`)
